@@ -29,7 +29,7 @@ def plan(tier, seed):
 
 def floors(tier):
     strata = list(TL.DIRECTIONS) + ["colour:list", "colour:function", "colour:3-digit", "colour:6-digit", "border", "multi-layer", "scale:linear", "scale:time"]
-    return {"evaluations": 400, "strata": strata, "events": {"TimelineSVG.export": 400, "TimelineTex.export": 400}, "distinct_nontrivial": 100, "max_inconclusive_frac": 0.05}
+    return {"evaluations": 400, "strata": strata, "events": {"TimelineSVG.export": 400, "TimelineTex.export": 400}, "distinct_nontrivial": 100, "max_inconclusive_frac": 0.01}
 
 
 def run_spec(ctx, mons, spec):
